@@ -162,25 +162,49 @@ Definition check_1001 (fs : list field) : verdict :=
   end.
 
 (* ---- Load + Marshal: the output must be accepted by the reference and decode to the same message *)
+Definition judge_load (sc : schema) (root b0 : list Z) (rec err : Z) (outb : list Z) (acc : Z) : verdict :=
+  match decode_top sc root b0 with
+  | Some m0 =>
+    if negb (wf_msg sc root m0) then VSkip else
+    let good := (err =? 0) && (acc =? 1) &&
+                match decode_top sc root outb with Some mo => msg_eqv mo m0 | None => false end in
+    if good then
+      (if negb (rec =? 1) then VOk
+       else match coded_load_marshal cur_fixes sc root b0 with
+            | EOk o => if bytes_eqb o outb then VOk else VDrift 2
+            | _ => VDrift 2
+            end)
+    else match known_load sc root m0 b0 rec err outb with
+         | Some id => VKnown id
+         | None => VBad 200 [FB (encode_msg m0)]
+         end
+  | None => VSkip
+  end.
+
 Definition check_1002 (fs : list field) : verdict :=
   match parse_schema fs with
-  | Some (root, sc, [FB b0; FZ rec; FZ err; FB outb; FZ acc]) =>
-    match decode_top sc root b0 with
-    | Some m0 =>
-      if negb (wf_msg sc root m0) then VSkip else
-      let good := (err =? 0) && (acc =? 1) &&
-                  match decode_top sc root outb with Some mo => msg_eqv mo m0 | None => false end in
-      if good then
-        (if negb (rec =? 1) then VOk
-         else match coded_load_marshal cur_fixes sc root b0 with
-              | EOk o => if bytes_eqb o outb then VOk else VDrift 2
-              | _ => VDrift 2
-              end)
-      else match known_load sc root m0 b0 rec err outb with
-           | Some id => VKnown id
-           | None => VBad 200 [FB (encode_msg m0)]
-           end
-    | None => VSkip
+  | Some (root, sc, [FB b0; FZ rec; FZ err; FB outb; FZ acc]) => judge_load sc root b0 rec err outb acc
+  | _ => VBad 99 []
+  end.
+
+(* ---- tree reuse: whatever was loaded into the PathNode before, Load + Marshal of the LAST message must behave as on
+   a fresh tree (the model has no state to go stale): same judgement as 1002 against the last message *)
+Definition check_1003 (fs : list field) : verdict :=
+  match parse_schema fs with
+  | Some (root, sc, [FB bA; FB bB; FZ recA; FZ recB; FZ mode; FZ err; FB outb; FZ acc]) =>
+    let bl := if mode =? 2 then bA else bB in
+    let recl := if mode =? 2 then recA else recB in
+    let stale := known_reuse sc root bA bB recA recB mode err outb in
+    let fresh := (recl =? 1) && load_matches (coded_load_marshal cur_fixes sc root bl) err outb in
+    match judge_load sc root bl recl err outb acc with
+    | VOk | VDrift _ => if reuse_agrees sc root bA bB recA recB mode err outb then VOk else VDrift 3
+    | VSkip => VSkip
+    | VKnown id =>                       (* a fresh tree deviates in the same way (e.g. bool keys): not a matter of re-use *)
+      match stale with
+      | Some sid => if fresh then VKnown id else VKnown sid
+      | None => VKnown id
+      end
+    | VBad _ d => match stale with Some sid => VKnown sid | None => VBad 300 d end
     end
   | _ => VBad 99 []
   end.
